@@ -1055,12 +1055,22 @@ let body_render jvdoc body_key tree =
        | MGemini -> fst (gem_render_with_links c content w)
        | MHtml | MMarkdown -> (match take_nodes tree with Some ns -> fst (render_with_links c ns w) | None -> []))
   | _ -> (fun _ -> [])
+let last_url_tbl : (n list * n list option) list ref = ref []
 let op_itemx args lib =
   let (_doc, r) = take_text args in let (ctor, r) = take1 r in let (widths, r) = take_list r in let (numbers, r) = take_list r in
   let (jvdoc, _) = take_jv r in
-  if lib = [] then [1] else
   let c = default_colors in
   let txt s = List.map (fun ch -> n_of_int (Char.code ch)) (List.init (String.length s) (String.get s)) in
+  (* ctor 0/1: the lib line starts with the url.Parse table; the constructor may still have refused the object *)
+  let (url_tbl, lib) = (if (ctor = 0 || ctor = 1) && lib <> [] then
+      let (n, l) = take1 lib in
+      let rec go n l = if n = 0 then ([], l) else
+          let (s, l) = take_text l in let (ok, l) = take1 l in
+          let (v, l) = (if ok <> 0 then let (u, l) = take_text l in (Some u, l) else (None, l)) in
+          let (rest, l) = go (n - 1) l in ((s, v) :: rest, l) in
+      go n l else ([], lib)) in
+  last_url_tbl := url_tbl;
+  if lib = [] then [1] else
   if ctor = 0 then begin
     let (kind, l) = take_text lib in
     let (title, tmsg, l) = take_fval take_text l in
@@ -1134,6 +1144,65 @@ let op_itemx args lib =
       @ put_sel (actor_pfp a) @ put_sel (actor_banner a)
     with Model_panic -> panic_marker
   end
+(* the link fields the constructor stored (dump) against Links.v run on the JSON; messages are not compared *)
+let shape_f eqv a b = (match a, b with
+    | FOk x, FOk y -> eqv x y
+    | FAbsent, FAbsent -> true
+    | FErr _, FErr _ -> true
+    | _, _ -> false)
+let link_eq (a : link0) (b : link0) =
+  a.l_kind = b.l_kind && shape_f (fun (x : media_type) y -> x.essence = y.essence && x.supertype = y.supertype && x.subtype = y.subtype) a.l_mt b.l_mt
+  && shape_f (=) a.l_uri b.l_uri && shape_f (=) a.l_alt b.l_alt && shape_f (=) a.l_height b.l_height && shape_f (=) a.l_width b.l_width
+let links_check args lib =
+  try
+    let (_doc, r) = take_text args in let (ctor, r) = take1 r in let (_w, r) = take_list r in let (_n, r) = take_list r in
+    let (jvdoc, _) = take_jv r in
+    if ctor > 1 || lib = [] then true else begin
+      ignore (op_itemx args lib);
+      let tbl = !last_url_tbl in
+      let url_parse s = (try List.assoc s tbl with Not_found -> None) in
+      let o = (match jvdoc with JObj kvs -> kvs | _ -> []) in
+      (* skip the table again to reach the dump *)
+      let (n, l) = take1 lib in
+      let rec skip n l = if n = 0 then l else let (_, l) = take_text l in let (ok, l) = take1 l in
+          skip (n - 1) (if ok <> 0 then snd (take_text l) else l) in
+      let l = skip n l in
+      if l = [] then true else
+      (* the dumped uri of a failed link is reported as FErr by take_link_body; compare through the same reader *)
+      if ctor = 0 then begin
+        let (kind, l) = take_text l in
+        let (_, _, l) = take_fval take_text l in
+        let (bst, l) = take1 l in let (_, l) = (if bst = 0 then ([], l) else take_text l) in
+        let (nbl, l) = take1 l in let (_, l) = take_texts nbl l in
+        let (_, _, l) = take_fval take_text l in
+        let (_, l) = take1 l in
+        let (nc, l) = take1 l in let (_, l) = take_texts nc l in
+        let (nr, l) = take1 l in let (_, l) = take_texts nr l in
+        let (atts, _, l) = take_fval (fun l -> let (n, l) = take1 l in
+                                       let rec go n l = if n = 0 then ([], l) else
+                                           let (_, l) = take1 l in let (lk, l) = take_link_body l in let (rest, l) = go (n - 1) l in (lk :: rest, l) in go n l) l in
+        let (media, _, _) = take_link_f l in
+        let norm (lk : link0) = { lk with l_uri = (match lk.l_uri with FAbsent -> FErr [] | x -> x) } in
+        let normf = (function FOk lk -> FOk (norm lk) | x -> x) in
+        let m_atts = (match post_attachments_of url_parse o with FOk ls -> FOk (List.map norm ls) | x -> x) in
+        let m_media = normf (post_media_of url_parse o kind) in
+        shape_f (fun a b -> List.length a = List.length b && List.for_all2 link_eq a b) atts m_atts && shape_f link_eq media m_media
+      end else begin
+        let (_kind, l) = take_text l in
+        let (_, _, l) = take_fval take_text l in
+        let (_, _, l) = take_fval take_text l in
+        let (hasid, l) = take1 l in let (_, l) = (if hasid <> 0 then take_text l else ([], l)) in
+        let (bst, l) = take1 l in let (_, l) = (if bst = 0 then ([], l) else take_text l) in
+        let (nbl, l) = take1 l in let (_, l) = take_texts nbl l in
+        let (_, _, l) = take_fval take_text l in
+        let (pfp, _, l) = take_link_f l in
+        let (banner, _, _) = take_link_f l in
+        let norm (lk : link0) = { lk with l_uri = (match lk.l_uri with FAbsent -> FErr [] | x -> x) } in
+        let normf = (function FOk lk -> FOk (norm lk) | x -> x) in
+        shape_f link_eq pfp (normf (actor_pfp_of url_parse o)) && shape_f link_eq banner (normf (actor_banner_of url_parse o))
+      end
+    end
+  with _ -> false
 let orc_itemx args lib impl =
   match impl with
   | 0 :: rest ->
@@ -1141,7 +1210,7 @@ let orc_itemx args lib impl =
       let (_doc, r) = take_text args in let (_, r) = take1 r in let (widths, _) = take_list r in
       let (texts, _) = take_texts (1 + 2 * List.length widths) rest in
       [("safe", List.for_all safe_b texts); ("neutral", List.for_all neutral_b texts); ("wf_out", List.for_all wf_text_b texts);
-       ("equals_model", op_itemx args lib = impl)]
+       ("equals_model", op_itemx args lib = impl); ("links_equal_model", links_check args lib)]
     with _ -> [("well_formed_result", false)])
   | _ -> []
 
